@@ -4,14 +4,25 @@ import elab_cluster as E
 import gen_checker as G
 
 PROP = "C19"
-CONE = sorted(set(K.MODEL_FILES + E.MODEL_FILES + ["Gen/Generated.v"] + ['Proofs/ElabProofs.v', 'Props/C19.v']))
+CONE = sorted(set(K.MODEL_FILES + E.MODEL_FILES + ["Gen/Generated.v"] + ['Proofs/ElabProofs.v', 'Proofs/CheckerFrame.v', 'Props/C19.v']))
 RULE_E = 'histories of 2-6 definitions: module-level functions with stacks of 0-4 decorators (require / ensure / snapshot, enabled or not, foreign functools.wraps decorators, invalid decorators), classes on DBC or not with single or multiple bases, members f/g/p/__init__/__new__/__setattr__/_priv/__repr__ of kinds method, static, class method, property get/set/del, class invariants with check_on CALL/SETATTR/ALL; after each step every earlier function and class is viewed through find_checker and the list attributes (contents and identity of the invariant lists); seeded. distinct = distinct final views.'
-RULE_C = 'checker-cluster cases as for C01 (all callable kinds x sync/async, chains of 1-3 classes, faults); seeded.'
+RULE_C = ('checker-cluster cases as for C01 (all callable kinds x sync/async, chains of 1-3 classes, faults) in which 45% of '
+          'the signatures carry a parameter named result / OLD (positional-only, positional-or-keyword or keyword-only; passed '
+          'positionally, by keyword or left to its default) and 1% of the calls a keyword argument _ARGS: spec_C19_call on the '
+          "implementation's observation (TypeError before the body whenever a reserved name would be shadowed); seeded.")
 
 
 def run(tier, replay=None):
     out, build, problems = K.begin(PROP, tier, CONE, "Props/C19.v")
     is_elab_replay = bool(replay) and "ops" in __import__("json").load(open(replay)).get("case", {})
+    if not replay or not is_elab_replay:
+        old = G.RESERVED_PARAMS
+        G.RESERVED_PARAMS = 0.45
+        try:
+            K.run_into(out, build, problems, PROP, tier, ['spec_C19_call'], lambda rng, n: G.gen_many(rng, n), 700, 15000,
+                       RULE_C, replay=replay)
+        finally:
+            G.RESERVED_PARAMS = old
     if not replay or is_elab_replay:
         E.run(out, build, problems, PROP, tier, ['spec_C19_defs'], E.default_gen, 500, 10000, RULE_E, replay=replay, known={})
     return out.finish()
